@@ -157,9 +157,9 @@ def handle : Handler
   | "c07.spec_reorder", [d, r] => some <| Option.getD (do
       let D ← dendro? d
       some (verdict (reorderSpec (D.length + 1) D (← dendro? r)))) "bad-args"
-  | "c07.spec_split", [d, n1, n2, r, c] => some <| Option.getD (do
+  | "c07.spec_split", [d, n1, n2, r, c, srt] => some <| Option.getD (do
       let D ← dendro? d
-      some (verdict (splitSpec D (← n1.toNat?) (← n2.toNat?) (← dendro? r) (← dendro? c)))) "bad-args"
+      some (verdict (splitSpec D (← n1.toNat?) (← n2.toNat?) (← dendro? r) (← dendro? c) (← bool? srt)))) "bad-args"
   | _, _ => none
 
 end SkNet.Drive.C07
